@@ -1,4 +1,12 @@
-(* RegistryProofs.v — proofs about RegistryModel.v (property C17). *)
+(* RegistryProofs.v — proofs about RegistryModel.v (property C17).
+
+   1. capacity rule, cyclic facts, position-wise relation PW (same homes, addresses, root flags)
+   2. backward shift: where an entry can come from (backshift_from), used by the sweep loop
+   3. mark phase: total, changes mark bits only
+   4. compaction loop of GC_Sweep: total, leaves exactly the keepers
+   5. the registry invariant Inv (including the ledger `led`), kept by every operation,
+      nested destructor-issued removals included; fuel adequacy everywhere
+   6. histories                                                                              *)
 From Coq Require Import List Arith Bool NArith Lia PeanoNat.
 From CelloV Require Import Generated RobinHood RobinHoodProofs TableProofs RegistryModel.
 Import ListNotations.
@@ -10,4 +18,202 @@ Proof.
   assert (H : (N.of_nat n < ideal_size_N gc_primes gc_load_num gc_load_den (N.of_nat n))%N)
     by (apply ideal_N_gt; vm_compute; reflexivity).
   lia.
+Qed.
+
+Local Notation at_ := (at_ gentry).
+Local Notation upd := (upd gentry).
+Local Notation Holds := (Holds gentry).
+Local Notation occupied := (occupied gentry).
+Local Notation entries := (entries gentry).
+Local Notation Absent := (Absent N gentry ptr).
+
+(* ------------------------------------------------------------------ 1. position-wise relation *)
+Inductive srel : gslot -> gslot -> Prop :=
+| srel_none : srel None None
+| srel_some h e e' : ptr e = ptr e' -> root e = root e' -> srel (Some (h, e)) (Some (h, e')).
+
+Definition PW (l l' : list gslot) : Prop := Forall2 srel l l'.
+
+Lemma srel_refl s : srel s s.
+Proof. destruct s as [[h e]|]; constructor; reflexivity. Qed.
+
+Lemma srel_trans a b c : srel a b -> srel b c -> srel a c.
+Proof. intros H1 H2. inversion H1; subst; inversion H2; subst; constructor; congruence. Qed.
+
+Lemma PW_refl l : PW l l.
+Proof. induction l; constructor; auto using srel_refl. Qed.
+
+Lemma PW_trans a b c : PW a b -> PW b c -> PW a c.
+Proof.
+  unfold PW. intros H. revert c. induction H as [|x y l l' Hxy Hl IH]; intros c Hc; inversion Hc; subst.
+  - constructor.
+  - constructor; [eapply srel_trans; eauto|apply IH; assumption].
+Qed.
+
+Lemma PW_length l l' : PW l l' -> length l' = length l.
+Proof. induction 1; simpl; congruence. Qed.
+
+Lemma PW_at l l' i : PW l l' -> srel (at_ l i) (at_ l' i).
+Proof.
+  intros H. revert i. induction H; intros [|i]; try constructor; auto.
+  unfold RobinHood.at_. simpl. apply IHForall2.
+Qed.
+
+Lemma PW_occupied l l' : PW l l' -> occupied l' = occupied l.
+Proof.
+  induction 1; [reflexivity|]. rewrite !occupied_cons, IHForall2. inversion H; reflexivity.
+Qed.
+
+Lemma PW_upd l i h e e' : at_ l i = Some (h, e) -> ptr e = ptr e' -> root e = root e' ->
+  PW l (upd i (Some (h, e')) l).
+Proof.
+  revert i. induction l as [|s l IH]; intros [|i] Hat Hp Hr; try discriminate; simpl.
+  - unfold RobinHood.at_ in Hat; simpl in Hat. subst s. constructor; [constructor; auto|apply PW_refl].
+  - constructor; [apply srel_refl|]. apply IH; auto.
+Qed.
+
+Definition smap (f : gentry -> gentry) (l : list gslot) : list gslot :=
+  map (fun s => match s with Some (h, e) => Some (h, f e) | None => None end) l.
+
+Lemma PW_smap f l : (forall e, ptr (f e) = ptr e /\ root (f e) = root e) -> PW l (smap f l).
+Proof.
+  intros Hf. induction l as [|[[h e]|] l IH]; simpl; constructor; auto; constructor;
+    destruct (Hf e); congruence.
+Qed.
+
+Lemma clear_marks_smap l : clear_marks l = smap unmark l.
+Proof. reflexivity. Qed.
+
+Lemma mark_roots_smap l : mark_roots l = smap (fun e => if root e then setmark e else e) l.
+Proof.
+  unfold mark_roots, smap. apply map_ext. intros [[h e]|]; [|reflexivity]. destruct (root e); reflexivity.
+Qed.
+
+Lemma at_smap f l i : at_ (smap f l) i = match at_ l i with Some (h, e) => Some (h, f e) | None => None end.
+Proof.
+  revert i. induction l as [|s l IH]; intros [|i]; try reflexivity.
+  simpl smap. rewrite !at_cons. apply IH.
+Qed.
+
+Lemma PW_holds l l' x' : PW l l' -> Holds l' x' -> exists x, Holds l x /\ ptr x = ptr x' /\ root x = root x'.
+Proof.
+  intros H [i [h Hat]]. pose proof (PW_at l l' i H) as Hs. rewrite Hat in Hs. inversion Hs; subst.
+  exists e. split; [exists i, h; auto|auto].
+Qed.
+
+Lemma PW_holds_rev l l' x : PW l l' -> Holds l x -> exists x', Holds l' x' /\ ptr x = ptr x' /\ root x = root x'.
+Proof.
+  intros H [i [h Hat]]. pose proof (PW_at l l' i H) as Hs. rewrite Hat in Hs. inversion Hs; subst.
+  exists e'. split; [exists i, h; auto|auto].
+Qed.
+
+Lemma PW_core hm l l' : PW l l' -> core N gentry ptr hm l -> core N gentry ptr hm l'.
+Proof.
+  intros H [HL [Hwf Huq]]. pose proof (PW_length _ _ H) as Hlen.
+  assert (Hwt : forall a, wt gentry l' a = wt gentry l a).
+  { intros a. unfold wt. rewrite Hlen. pose proof (PW_at l l' a H) as Hs. inversion Hs; reflexivity. }
+  split; [|split].
+  - intros a Ha. rewrite Hlen in *. rewrite !Hwt. apply HL. assumption.
+  - intros a h e' Hat. rewrite Hlen. pose proof (PW_at l l' a H) as Hs. rewrite Hat in Hs.
+    destruct (at_ l a) as [[h0 e0]|] eqn:Ha0; inversion Hs as [|? ? ? Hp Hr]; subst.
+    destruct (Hwf a h e0 Ha0) as [Hh Hlt]. split; [congruence|assumption].
+  - intros a b h h' e e' Ha Hb Hk.
+    pose proof (PW_at l l' a H) as Hsa. rewrite Ha in Hsa.
+    destruct (at_ l a) as [[ha ea]|] eqn:Ha0; inversion Hsa as [|? ? ? Hpa Hra]; subst.
+    pose proof (PW_at l l' b H) as Hsb. rewrite Hb in Hsb.
+    destruct (at_ l b) as [[hb eb]|] eqn:Hb0; inversion Hsb as [|? ? ? Hpb Hrb]; subst.
+    eapply Huq; eauto. congruence.
+Qed.
+
+(* registered (address, root flag) pairs of a slot array *)
+Definition Regs (l : list gslot) (q : N) (s : bool) : Prop :=
+  exists e, Holds l e /\ ptr e = q /\ root e = s.
+
+Lemma PW_regs l l' q s : PW l l' -> (Regs l' q s <-> Regs l q s).
+Proof.
+  intros H. split; intros [e [He [Hp Hr]]].
+  - destruct (PW_holds _ _ _ H He) as [x [Hx [Hpx Hrx]]]. exists x. split; [auto|split; congruence].
+  - destruct (PW_holds_rev _ _ _ H He) as [x [Hx [Hpx Hrx]]]. exists x. split; [auto|split; congruence].
+Qed.
+
+Lemma Regs_absent l q : Absent l q <-> (forall s, ~ Regs l q s).
+Proof.
+  split.
+  - intros Ha s [e [[i [h Hat]] [Hp _]]]. eapply Ha; eauto.
+  - intros Hn i h e Hat Hp. apply (Hn (root e)). exists e. split; [exists i, h; auto|auto].
+Qed.
+
+(* ------------------------------------------------------------------ 2. backward shift *)
+(* every entry of the result sits where it was or one slot before: nothing jumps *)
+Lemma backshift_from : forall fuel (l : list gslot) i z m l',
+  i < length l -> at_ l i = None ->
+  z = pos (length l) i m -> 0 < m -> m < length l -> at_ l z = None ->
+  backshift gentry fuel l i = Some l' ->
+  forall s x, at_ l' s = Some x ->
+    at_ l s = Some x \/ (at_ l (nxt (length l) s) = Some x /\ exists k, k < m /\ s = pos (length l) i k).
+Proof.
+  induction fuel as [|f IH]; intros l i z m l' Hi Hat Hz Hm0 Hmn Hzn Hb s x Hs; [discriminate|].
+  rewrite backshift_S in Hb. set (n := length l) in *. set (ni := nxt n i) in *.
+  destruct (at_ l ni) as [[h e]|] eqn:Hnat.
+  - destruct (0 <? dist n ni h) eqn:Hd.
+    + set (l1 := upd ni None (upd i (Some (h, e)) l)) in *.
+      assert (Hni : ni < n) by (apply nxt_lt; assumption).
+      assert (Hne : ni <> i) by (intros Heq; rewrite Heq in Hnat; congruence).
+      assert (Hlen2 : length (upd i (Some (h, e)) l) = n) by apply upd_length.
+      assert (Hlen1 : length l1 = n) by (unfold l1; rewrite upd_length; assumption).
+      assert (Hat1 : forall a, at_ l1 a = if a =? ni then None else if a =? i then Some (h, e) else at_ l a).
+      { intros a. unfold l1. rewrite at_upd by (rewrite Hlen2; assumption).
+        destruct (Nat.eqb_spec a ni); [reflexivity|]. apply at_upd. assumption. }
+      assert (Hzi : z <> i) by (rewrite Hz; apply pos_ne_self; assumption).
+      assert (Hzni : z <> ni) by (intros ->; congruence).
+      assert (Hm1 : m <> 1).
+      { intros ->. apply Hzni. rewrite Hz. rewrite pos_S_nxt by lia. apply pos_0. assumption. }
+      assert (P1 : ni < length l1) by (rewrite Hlen1; assumption).
+      assert (P2 : at_ l1 ni = None) by (rewrite Hat1, Nat.eqb_refl; reflexivity).
+      assert (P3 : z = pos (length l1) ni (m - 1)).
+      { rewrite Hlen1. rewrite Hz. replace m with (S (m - 1)) at 1 by lia. apply pos_S_nxt; lia. }
+      assert (P4 : 0 < m - 1) by lia.
+      assert (P5 : m - 1 < length l1) by (rewrite Hlen1; lia).
+      assert (P6 : at_ l1 z = None).
+      { rewrite Hat1. destruct (Nat.eqb_spec z ni); [reflexivity|].
+        destruct (Nat.eqb_spec z i); [contradiction|assumption]. }
+      destruct (IH l1 ni z (m - 1) l' P1 P2 P3 P4 P5 P6 Hb s x Hs) as [H1|[H1 [k [Hk Hsk]]]].
+      * rewrite Hat1 in H1. destruct (Nat.eqb_spec s ni); [discriminate|].
+        destruct (Nat.eqb_spec s i) as [->|].
+        -- right. split; [fold ni; congruence|]. exists 0. split; [lia|]. symmetry. apply pos_0. assumption.
+        -- left. assumption.
+      * rewrite Hlen1 in *. rewrite Hat1 in H1.
+        destruct (Nat.eqb_spec (nxt n s) ni); [discriminate|].
+        assert (Hs1 : s = pos n i (S k)) by (rewrite Hsk; symmetry; apply pos_S_nxt; lia).
+        assert (Hsn : s < n) by (rewrite Hs1; apply pos_lt; lia).
+        assert (Hnx : nxt n s = pos n i (S (S k))).
+        { rewrite Hs1. apply nxt_pos; lia. }
+        destruct (Nat.eqb_spec (nxt n s) i) as [Heq|].
+        -- exfalso. rewrite Hnx in Heq. revert Heq. apply pos_ne_self; lia.
+        -- right. split; [assumption|]. exists (S k). split; [lia|assumption].
+    + injection Hb as <-. left. assumption.
+  - injection Hb as <-. left. assumption.
+Qed.
+
+Lemma delete_at_from (l : list gslot) i h e l' : at_ l i = Some (h, e) -> occupied l < length l ->
+  delete_at gentry l i = Some l' ->
+  forall s x, at_ l' s = Some x -> s <> i /\ at_ l s = Some x \/ (nxt (length l) s <> i /\ at_ l (nxt (length l) s) = Some x).
+Proof.
+  intros Hat Hocc Hd s x Hs. pose proof (at_some_lt _ _ _ _ Hat) as Hi.
+  destruct (empty_slot_exists _ l Hocc) as [z [Hz Hzn]].
+  assert (Hzi : z <> i) by (intros ->; congruence).
+  unfold delete_at in Hd. set (n := length l) in *. set (l0 := upd i None l) in *.
+  assert (Hlen0 : length l0 = n) by apply upd_length.
+  assert (Hat0 : forall a, at_ l0 a = if a =? i then None else at_ l a) by (intros a; apply at_upd; assumption).
+  assert (P1 : i < length l0) by (rewrite Hlen0; assumption).
+  assert (P2 : at_ l0 i = None) by (rewrite Hat0, Nat.eqb_refl; reflexivity).
+  assert (P3 : z = pos (length l0) i (dist n z i)) by (rewrite Hlen0; symmetry; apply pos_dist; assumption).
+  assert (P4 : 0 < dist n z i).
+  { destruct (dist n z i) eqn:Hdd; [|lia]. apply dist_0 in Hdd; auto. congruence. }
+  assert (P5 : dist n z i < length l0) by (rewrite Hlen0; apply dist_lt; assumption).
+  assert (P6 : at_ l0 z = None).
+  { rewrite Hat0. destruct (Nat.eqb_spec z i); [reflexivity|assumption]. }
+  destruct (backshift_from (n + 2) l0 i z (dist n z i) l' P1 P2 P3 P4 P5 P6 Hd s x Hs) as [H1|[H1 _]].
+  - rewrite Hat0 in H1. destruct (Nat.eqb_spec s i); [discriminate|]. left. auto.
+  - rewrite Hlen0 in H1. rewrite Hat0 in H1. destruct (Nat.eqb_spec (nxt n s) i); [discriminate|]. right. auto.
 Qed.
